@@ -39,6 +39,11 @@ def run(ctx):
     ctx.rule('R10.6', 'every whitespace/newline token a layout filter inserts is a new object (no token shared between positions or calls)', floor=20)
     V = VC.get_vocab(ctx)
     RF.check_fresh_insertions(ctx, 'R10.6')
+    ctx.rule('R10.7', 'a group handler recognises every delimiter word of its class (literal in the handler vs M_OPEN/M_CLOSE of the class)', floor=2)
+    RF.check_handler_tables(ctx, 'R10.7')
+    from .. import rules_tree as RT2
+    ctx.rule('R10.8', 'the layout filters reach every group: get_sublists yields every group child', floor=1)
+    RT2.check_get_sublists(ctx, 'R10.8')
     check_split_table(ctx, V)
     check_composition(ctx, 'R10.2')
     check_implies_strip(ctx)
